@@ -13,6 +13,10 @@ def key_of(execu, bad):
         return "%s/%s %s" % (bad.get("op"), bad.get("sp"), state)
     if e == "Idx":
         return "Idx %s" % bad.get("op")
+    if e == "Block":
+        return "Block constructor %s" % ("returned" if bad.get("ret") else "exited")
+    if e == "Corner":
+        return "scalar %s by %s" % (bad.get("op"), "a non-finite quotient" if not bad.get("fin") else "more than 2 ulp")
     return str(e)
 
 
@@ -25,6 +29,13 @@ def shape(x):
 
 
 def what_of(execu, bad):
+    if bad.get("e") == "Corner":
+        return "scalar division by %s: %s (every spelling must give entry/s to 2 ulp, finite where the quotient is finite); event %s" % (
+            bad.get("scalar"), "non-finite or NaN result" if not bad.get("fin") else "%s ulp off" % bad.get("ulps"), json.dumps(bad)[:200])
+    if bad.get("e") == "Block":
+        return "block constructor on blocks %s | %s / %s | %s: %s; event %s" % (
+            shape(bad.get("A")), shape(bad.get("B")), shape(bad.get("C")), shape(bad.get("D")),
+            "returned although the partition is inconsistent, or returned another matrix than the definition" if bad.get("ret") else "terminated although the partition is consistent (or without diagnostic)", json.dumps(bad)[:200])
     return "%s (%s) on shapes %s, %s: %s; event %s" % (
         bad.get("op"), bad.get("sp"), shape(bad.get("A")), shape(bad.get("B")),
         "returned a result that differs from the definition, or returned for non-conformable operands" if bad.get("ret")
